@@ -117,12 +117,21 @@ def initSlots (mounts : List Mount) (reps : List Replica) : List Slot :=
     let r := replicaOn reps m.id
     { mnt := m, repl := r, want := r.isSome && m.ro }
 
-/-- what the block-independent part of the run provides -/
+def lookupD (m : List (Class × Nat)) (c : Class) : Option Nat := (m.find? (fun p => p.1 == c)).map (·.2)
+
+/-- what the run provides for one block -/
 structure Env where
   rank : Nat → Nat              -- srvRendezvous: position of a service in the rendezvous order
   devLess : Dev → Dev → Bool    -- rendezvousLess(DeviceID i, DeviceID j, blkid)
   minMtime : Int
-  desired : Class → Nat         -- blk.Desired[class] (0 when absent)
+  desiredMap : List (Class × Nat)   -- blk.Desired (a map: the first entry of a key counts)
+
+/-- `blk.Desired[class]` (0 when absent) -/
+def Env.desired (env : Env) (c : Class) : Nat := (lookupD env.desiredMap c).getD 0
+
+/-- `for class, desired := range blk.Desired` finds a class with desired > 0 satisfying `p` -/
+def Env.wantsSome (env : Env) (p : Class → Bool) : Bool :=
+  env.desiredMap.any (fun e => decide (env.desired e.1 ≠ 0) && p e.1)
 
 /-- the comparator handed to `sort.Slice` for class `c` -/
 def less (env : Env) (c : Class) (a b : Slot) : Bool :=
@@ -300,24 +309,30 @@ structure Result where
   deriving Repr
 
 /-- `lost`: set by the switch for a wanted empty slot of a block without replicas, and after the
-loop for any block without replicas that some class of the loop wants -/
-def lostFlag (env : Env) (classes : List Class) (reps : List Replica) (changes : List (Slot × Change)) : Bool :=
-  changes.any (fun p => p.2 == .lost) || (reps.isEmpty && classes.any (fun c => env.desired c != 0))
+loop for any block without replicas that is wanted in some class (offered or not) -/
+def lostFlag (env : Env) (reps : List Replica) (changes : List (Slot × Change)) : Bool :=
+  changes.any (fun p => p.2 == .lost) || (reps.isEmpty && env.wantsSome (fun _ => true))
+
+/-- the state before the class loop: `underreplicated` starts true when the block is wanted in a
+class that has no mount table (`bal.mountsByClass[class] == nil`, i.e. the class is not in
+`bal.classes`) -/
+def initState (env : Env) (classes : List Class) (mounts : List Mount) (reps : List Replica) : BState :=
+  { slots := initSlots mounts reps, utd := [], underrep := env.wantsSome (fun c => !classes.contains c) }
 
 /-- `balanceBlock` on the mounts of the (cleaned-up) layout -/
 def balanceBlock (env : Env) (classes : List Class) (sorter : Class → List Slot → List Slot)
     (mounts : List Mount) (reps : List Replica) : Result :=
-  let b := runClasses env sorter classes { slots := initSlots mounts reps, utd := [], underrep := false }
+  let b := runClasses env sorter classes (initState env classes mounts reps)
   let changes := (finalWant b).map (fun s => (s, change env reps s))
-  { changes := changes, final := b, lost := lostFlag env classes reps changes }
+  { changes := changes, final := b, lost := lostFlag env reps changes }
 
 def BalanceOK (env : Env) (classes : List Class) (sorter : Class → List Slot → List Slot)
     (mounts : List Mount) (reps : List Replica) : Prop :=
-  RunOK env sorter classes { slots := initSlots mounts reps, utd := [], underrep := false }
+  RunOK env sorter classes (initState env classes mounts reps)
 
 def BalancePerm (env : Env) (classes : List Class) (sorter : Class → List Slot → List Slot)
     (mounts : List Mount) (reps : List Replica) : Prop :=
-  RunPerm env sorter classes { slots := initSlots mounts reps, utd := [], underrep := false }
+  RunPerm env sorter classes (initState env classes mounts reps)
 
 theorem BalanceOK.toPerm {env : Env} {classes : List Class} {sorter : Class → List Slot → List Slot}
     {mounts : List Mount} {reps : List Replica} (h : BalanceOK env classes sorter mounts reps) :
